@@ -92,6 +92,10 @@ def prove(pc, goal, timeout_ms=None, want_model=True):
         smt2 = s.to_smt2()
     except Exception as e:  # pragma: no cover
         return 'undecided', 'z3', ms, 'unknown(%s); no smt2: %s' % (reason, e)
+    if os.environ.get('PYVC_DUMP'):
+        os.makedirs(os.environ['PYVC_DUMP'], exist_ok=True)
+        with open(os.path.join(os.environ['PYVC_DUMP'], 'q%d.smt2' % stats['z3_queries']), 'w') as f:
+            f.write(smt2)
     v, ms2, out = run_cvc5(smt2)
     if v == 'unsat':
         return 'proved', 'cvc5', ms + ms2, None
